@@ -87,6 +87,11 @@ CHECKS = {
             "424 (quick) / ~10k (thorough) schemas: every single position (type names, properties, edge, entrypoints, parameter) x 18 names (case variants, underscores, strict / reserved / weak keywords, `_`), pairs of positions x pairs of names, every built-in scalar incl. ID x 8 nullability / list shapes as property and as parameter type, schemas without edges / properties. A stub that is written must pass cargo check --tests against /repo/trustfall; a generator panic other than its documented refusal is a violation.",
             "'Compiles' is decided by type-checking (no linking) with the sandbox toolchain, edition 2021 as in the repository's own stubgen test. Three known findings (ID type, consecutive-capitals type names, entrypoints colliding after snake-casing).",
             "DESIGN.md §4 C26"),
+    "C27": ("exploration",
+            "bounded-exhaustive enumeration of (query, arguments, dataset) cases and of a value-conversion sweep, executed through the real Python bindings (rebuilt from /repo) over a Python adapter mirroring the Rust adapter, compared type-strictly with the Rust engine's rows",
+            "~4900 (quick) cases: every boundary value flowing out as a property and in as an argument (ints across the i64/u64 boundary and 2^53, -0.0 / extreme floats, NUL / non-BMP strings, booleans, nested lists with nulls and mixed signedness), Python values with no counterpart (nan, inf, out-of-range ints, dict, bytes, tuple, set, mixed lists, object, complex) and missing / surplus arguments, which must raise; the enumerated query space (k<=1 quick, k<=2 strided thorough, plus tag structures) over 4 datasets. Rows as sequences; bool vs int vs float distinguished; floats by bit pattern; edge parameters received by the Python adapter are recorded.",
+            "The Python adapter re-implements the generic graph adapter's rules (py/c27_runner.py); CPython 3.11 of the sandbox.",
+            "DESIGN.md §4 C27"),
     "C06": ("model_checking",
             "explicit-state search over candidate values: BFS closure from ~1300 seed states, every transition calls the real intersect / exclude_single_value / normalize and is compared with a reference denotation (bitmask over a probe universe)",
             "All seed candidates (Impossible, All, Single, Multiple up to 3 values in both orders, every Range over the bound alphabet with every bound kind and null inclusion) for an integer sort (signed/unsigned boundaries) and a string sort; every ordered pair is intersected, every value excluded, every state normalised; the state space is closed under these operations (no new states appear), so the search is a fixpoint.",
